@@ -19,7 +19,8 @@ ID = "C15"
 LEVEL = "fault_enumeration"
 RULE = (
     "scenarios {single optimizer step, single evaluator step, optimizer step followed by evaluator step, evaluator step "
-    "followed by optimizer step, nested plan (outer optimizer, inner optimizer on the complementary variables)} x "
+    "followed by optimizer step, nested plan (outer optimizer, inner optimizer on the complementary variables), a BasicOptimizer "
+    "object with results and abort callbacks run three times} x "
     "{plain, evaluation failures leading to TOO_FEW_REALIZATIONS, max_functions stop} x {slsqp, nelder-mead}; every plan "
     "level carries two recording handlers (injected plan_handler plug-in) and two observers are subscribed to every event "
     "type. First the unaborted run is recorded, then the USER_ABORT is raised at EVERY (emission index, receiver) pair of "
@@ -340,7 +341,65 @@ def _abort_in_inner(out: dict[str, Any]) -> bool:
     return False
 
 
+def run_basic(case: dict[str, Any]) -> dict[str, Any]:
+    """BasicOptimizer: its callbacks are observers; each gets every event once, in every run of the same object."""
+    from ropt.plan import BasicOptimizer
+
+    a = np.array(case["slopes"], dtype=np.float64).reshape(2, 1, 2)
+    ev = AffineEvaluator(a, np.zeros((2, 1)), quad=1.0)
+    if case["variant"] == "failures":
+        ev.fail = {(case["fail_call"], 0, -1): [("obj", 0)]}
+    budget = case["budget"] if case["variant"] == "budget" else 6
+    points = interesting = 0
+    reference: list[int] | None = None
+    for abort_at in [None, *range(1, case.get("basic_aborts", 4) + 1)]:
+        log: list[str] = []
+        checks = [0]
+
+        def on_results(results: Any, log: list[str] = log) -> None:  # noqa: ANN401
+            log.append("results")
+
+        def want_abort(log: list[str] = log, checks: list[int] = checks, abort_at: int | None = abort_at) -> bool:
+            log.append("abort-check")
+            checks[0] += 1
+            return abort_at is not None and checks[0] == abort_at
+
+        bo = BasicOptimizer(make_config(case, None, budget), ev)
+        bo.set_results_callback(on_results)
+        bo.set_abort_callback(want_abort)
+        per_run: list[tuple[int, int, int]] = []
+        for run in range(case.get("basic_runs", 3)):
+            ncalls, nlog = len(ev.calls), len(log)
+            checks[0] = 0
+            if case["variant"] == "failures":
+                ev.fail = {(ncalls + case["fail_call"], 0, -1): [("obj", 0)]}
+            bo.run()
+            calls = len(ev.calls) - ncalls
+            n_res = log[nlog:].count("results")
+            n_chk = log[nlog:].count("abort-check")
+            label = f"BasicOptimizer run {run + 1}" + (f", abort requested at check {abort_at}" if abort_at else "")
+            aborted = abort_at is not None and n_chk >= abort_at
+            check(n_chk == calls + (1 if aborted else 0), "delivery",
+                  f"{label}: {calls} evaluations but the abort callback (observer of START_EVALUATION) ran {n_chk} times", case)
+            check(n_res == calls, "delivery",
+                  f"{label}: {calls} evaluations but the results callback (observer of FINISHED_EVALUATION) ran {n_res} times", case)
+            if aborted:
+                check(bo.exit_code == OptimizerExitCode.USER_ABORT, "exit-code", f"{label}: exit code {bo.exit_code!r}", case)
+            else:
+                check(bo.exit_code != OptimizerExitCode.USER_ABORT, "exit-code", f"{label}: spurious USER_ABORT", case)
+            per_run.append((calls, n_res, n_chk))
+            points += 1
+            interesting += run > 0
+        check(len(set(per_run)) == 1, "delivery", f"runs of the same BasicOptimizer object differ (evaluations, results callbacks, abort checks): {per_run}", case)
+        if abort_at is None:
+            reference = [per_run[0][0]]
+    del reference
+    return {"points": points, "interesting": interesting, "emissions": 0}
+
+
 def run_case(case: dict[str, Any]) -> dict[str, Any]:
+    if case["scenario"] == "basic-optimizer":
+        return run_basic(case)
     base = execute(case, None, None)
     check_run(case, base, False, "unaborted run")
     points = 0
@@ -403,7 +462,7 @@ def hypothesis_shard(item: dict[str, Any]) -> Collector:
 
     @st.composite
     def cases(draw: Any) -> dict[str, Any]:  # noqa: ANN401
-        case = default_case(draw(st.sampled_from(["optimizer", "evaluator", "optimizer+evaluator", "evaluator+optimizer", "nested", "nested-reused", "nested-own-context"])),
+        case = default_case(draw(st.sampled_from(["optimizer", "evaluator", "optimizer+evaluator", "evaluator+optimizer", "nested", "nested-reused", "nested-own-context", "basic-optimizer"])),
                             draw(st.sampled_from(["plain", "failures", "budget"])), draw(st.sampled_from(["slsqp", "nelder-mead"])))
         case["speculative"] = draw(st.booleans())
         case["x0"] = [draw(st.sampled_from([-1.0, 0.0, 0.4, 1.5])), draw(st.sampled_from([-0.3, 0.8]))]
@@ -424,7 +483,7 @@ def hypothesis_shard(item: dict[str, Any]) -> Collector:
 
 def shards(tier: str, seed: int) -> list[dict[str, Any]]:
     items: list[dict[str, Any]] = []
-    for scenario in ("optimizer", "evaluator", "optimizer+evaluator", "evaluator+optimizer", "nested", "nested-reused", "nested-own-context"):
+    for scenario in ("optimizer", "evaluator", "optimizer+evaluator", "evaluator+optimizer", "nested", "nested-reused", "nested-own-context", "basic-optimizer"):
         for variant in ("plain", "failures", "budget"):
             for method in ("slsqp", "nelder-mead"):
                 for spec in ((False, True) if method == "slsqp" and tier != "quick" else (False,)):
